@@ -515,6 +515,25 @@ theorem blocks_minimal_attained (b l e : Nat) (hb : 0 < b) (he : 0 < e) (hl0 : 0
   · exact hB
   · exact Nat.le_trans hSL hB
 
+private theorem symsOf_sum (aL q r n : Nat) :
+    ((List.range n).map (symsOf aL q r)).sum = firstSym aL q r n := by
+  induction n with
+  | zero => simp [firstSym_zero]
+  | succ n ih => rw [List.range_succ, List.map_append, List.sum_append, ih, firstSym_succ]; simp
+
+/-- … and its sizes sum to `T`: the list of `blocks_minimal_attained` meets every hypothesis of `blocks_minimal`
+    with equality in the conclusion. -/
+theorem blocks_minimal_attained_sum (b l e : Nat) (hb : 0 < b) (he : 0 < e) (hl0 : 0 < l) :
+    ((List.range (rfc5052 l e b).N).map (rfc5052 l e b).symbolsOf).sum = (rfc5052 l e b).T := by
+  have hc := partition_covers b l e hb he hl0
+  simp only at hc
+  obtain ⟨hcov, _, _, _, _, _, hI, _⟩ := hc
+  have hfun : (rfc5052 l e b).symbolsOf =
+      symsOf (rfc5052 l e b).aLarge (rfc5052 l e b).aSmall (rfc5052 l e b).I := by
+    funext sbn; unfold Rfc5052.symbolsOf symsOf; rfl
+  rw [hfun, symsOf_sum, firstSym_N _ _ _ _ (Nat.le_of_lt hI)]
+  exact hcov
+
 /-! ### non-vacuity: concrete instances meeting the hypotheses, with unequal blocks -/
 
 example : blockPartitioning 3 23 4 = .ok (3, 3, 0, 2) := by rfl
